@@ -281,6 +281,9 @@ pub fn run(session: &Session, prop: &'static Soundness) -> i32 {
     for text in crate::genr::nearmiss::control_placement_programs() {
         cases.push(json!({"kind": "near-miss", "text": text}));
     }
+    for text in crate::genr::nearmiss::cell_widening_programs() {
+        cases.push(json!({"kind": "near-miss", "text": text}));
+    }
     {
         for x in 0..CATALOGUE.len() {
             for y in 0..CATALOGUE.len() {
@@ -303,7 +306,7 @@ pub fn run(session: &Session, prop: &'static Soundness) -> i32 {
     let (rule, assumptions): (&str, &[&str]) = match prop.mode {
         Mode::Cells => ("", &[]),
         Mode::Types => (
-            "the operator x operand-type matrix: every unary/postfix/statement template applied to a parameter of each of 60 catalogue types (exhaustive), every infix/assignment operator and two-operand template on all pairs of catalogue types (exhaustive); each function the checker accepts is called through the host API and in-language with every combination of the catalogue's values for its parameter types (every union member, empty arrays, exhausted iterators, cells); the documentation corpus, 480 control-placement near misses (break/continue/return after, beside and inside every loop form in every kind of body; whatever is accepted is executed), and 40k (quick) tape-generated typed programs of every profile, a third of them with token-level edits (near misses; executed when still accepted) (closures, cells, iterators incl. exhausted ones, control flow, unions) are executed too. Oracle: the verif monitor reports every instruction result, argument binding, function return, the final result and every reachable cell with the static type the checker computed; the harness's own membership test (tag and contents, recursively) must hold. Non-trivial = an execution with at least one observation whose static type is a union, array, tuple, struct, function or mut; distinct by call.",
+            "the operator x operand-type matrix: every unary/postfix/statement template applied to a parameter of each of 60 catalogue types (exhaustive), every infix/assignment operator and two-operand template on all pairs of catalogue types (exhaustive); each function the checker accepts is called through the host API and in-language with every combination of the catalogue's values for its parameter types (every union member, empty arrays, exhausted iterators, cells); the documentation corpus, 480 control-placement and 96 cell-widening near misses (a narrow cell offered where a wider cell type is declared, through parameters, if-set, match, arrays, tuples, structs, results, closures, iterators; break/continue/return after, beside and inside every loop form in every kind of body; whatever is accepted is executed), and 40k (quick) tape-generated typed programs of every profile, a third of them with token-level edits (near misses; executed when still accepted) (closures, cells, iterators incl. exhausted ones, control flow, unions) are executed too. Oracle: the verif monitor reports every instruction result, argument binding, function return, the final result and every reachable cell with the static type the checker computed; the harness's own membership test (tag and contents, recursively) must hold. Non-trivial = an execution with at least one observation whose static type is a union, array, tuple, struct, function or mut; distinct by call.",
             &["instructions inside the placeholder-typed helper closures of @ ? ~ are not judged (their static types are not claims about user values)"],
         ),
         Mode::Panics => (
@@ -339,6 +342,9 @@ pub fn run_cells(session: &Session) {
                 }
             }
         }
+    }
+    for text in crate::genr::nearmiss::cell_widening_programs() {
+        cases.push(json!({"kind": "near-miss", "text": text}));
     }
     session.set_extra("cell_typing_matrix_cases", json!(cases.len()));
     session.run_enum(prop, cases);
